@@ -49,7 +49,7 @@ GPFCorrection::GPFCorrection(GPFCorrection&& correction) noexcept :
     state_model_(std::move(correction.state_model_)),
     generator_(std::move(correction.generator_)),
     distribution_(std::move(correction.distribution_)),
-    gaussian_random_sample_(std::move(correction.gaussian_random_sample_)),
+    gaussian_random_sample_([&] { return (distribution_)(generator_); }),
     valid_likelihood_(correction.valid_likelihood_),
     likelihood_(std::move(correction.likelihood_))
 { }
@@ -59,6 +59,8 @@ GPFCorrection& GPFCorrection::operator=(GPFCorrection&& correction) noexcept
 {
     PFCorrection::operator=(std::move(correction));
 
+    likelihood_model_ = std::move(correction.likelihood_model_);
+
     gaussian_correction_ = std::move(correction.gaussian_correction_);
 
     state_model_ = std::move(correction.state_model_);
@@ -67,7 +69,7 @@ GPFCorrection& GPFCorrection::operator=(GPFCorrection&& correction) noexcept
 
     distribution_ = std::move(correction.distribution_);
 
-    gaussian_random_sample_ = std::move(correction.gaussian_random_sample_);
+    gaussian_random_sample_ = [&] { return (distribution_)(generator_); };
 
     valid_likelihood_ = correction.valid_likelihood_;
 
